@@ -27,6 +27,16 @@ TRUE = z3.BoolVal(True)
 FALSE = z3.BoolVal(False)
 
 
+class HexV(Val):
+    """hex(t) for an integer term t >= 0 (assumed builtin contract: int(hex(m)[2:], 16) == m and
+    int(hex(m), 16) == m for every m >= 0); `stripped` = the '0x' prefix was sliced off"""
+    __slots__ = ('t', 'stripped')
+
+    def __init__(self, t, stripped=False):
+        self.t = t
+        self.stripped = stripped
+
+
 class IteV(Val):
     """choice between two values that cannot be merged into one term"""
     __slots__ = ('c', 'a', 'b')
@@ -853,6 +863,8 @@ class Pure(object):
                 return z3.BoolVal(bool(a.obj == b.obj))
             except Exception:
                 return fresh_bool('eq')
+        if isinstance(a, HexV) and isinstance(b, HexV) and a.stripped == b.stripped:
+            return a.t == b.t
         if isinstance(a, (UnkV, ObjV, FuncV)) or isinstance(b, (UnkV, ObjV, FuncV)):
             if isinstance(a, ObjV) and isinstance(b, ObjV) and a.oid == b.oid:
                 return TRUE
@@ -875,6 +887,10 @@ class Pure(object):
     def identical(self, a, b):
         if isinstance(a, ConstV) and isinstance(b, ConstV):
             return z3.BoolVal(a.obj is b.obj)
+        if isinstance(a, BoolV) and isinstance(b, BoolV):
+            return a.t == b.t           # True / False are singletons
+        if (isinstance(a, BoolV) and isinstance(b, ConstV)) or (isinstance(b, BoolV) and isinstance(a, ConstV)):
+            return FALSE
         if isinstance(a, (UnkV, IteV)) or isinstance(b, (UnkV, IteV)):
             return fresh_bool('is')
         if isinstance(a, ObjV) and isinstance(b, ObjV):
@@ -1006,6 +1022,9 @@ class Pure(object):
         return res
 
     def slice(self, base, lo, hi, step):
+        if isinstance(base, HexV) and not base.stripped and hi is None and step is None and \
+                lo is not None and is_conc_int(lo) and conc_int(lo) == 2:
+            return HexV(base.t, True)
         if isinstance(base, ConstV) and isinstance(base.obj, (tuple, list, str)):
             items = None
             try:
@@ -1093,7 +1112,18 @@ def _b_int(p, args, kw):
         t = int_term(args[0])
         if t is not None:
             return IntV(t)
+    if len(args) == 2 and not kw and isinstance(args[0], HexV) and is_conc_int(args[1]) and conc_int(args[1]) == 16:
+        return IntV(args[0].t)          # assumed builtin round trip (trusted base)
     return p.unk('int() of non-int')
+
+
+@_reg(hex)
+def _b_hex(p, args, kw):
+    t = int_term(args[0]) if len(args) == 1 else None
+    if t is None:
+        return p.unk('hex of non-int')
+    p.safety('hex-of-negative', t >= 0)     # '-0x..' would not survive the [2:] slice
+    return HexV(t)
 
 
 @_reg(bool)
@@ -1490,6 +1520,8 @@ class PathExec(object):
         env2 = dict(env)
         env2['result'] = res
         for name, fn, props in ct.ensures:
+            if name in ct.native_clauses:
+                continue
             e = p.inline_spec(fn, [], {}, extra_env=pick_env(fn, env2))
             st.assume(z3.Implies(guard, p.truthy(e)))
         yield st, res
